@@ -121,3 +121,43 @@ func ProcsWithEnv(marker string) []int {
 	}
 	return out
 }
+
+// ProcsWithCwdUnder returns the pids of live (non-zombie) processes whose working directory is dir or below it.
+func ProcsWithCwdUnder(dir string) []int {
+	var out []int
+	links, _ := filepath.Glob("/proc/[0-9]*/cwd")
+	for _, l := range links {
+		t, err := os.Readlink(l)
+		if err != nil {
+			continue
+		}
+		t = strings.TrimSuffix(t, " (deleted)")
+		if t == dir || strings.HasPrefix(t, dir+"/") {
+			pid, _ := strconv.Atoi(filepath.Base(filepath.Dir(l)))
+			if st, ok := readStat(pid); ok && st.state != "Z" && pid != os.Getpid() {
+				out = append(out, pid)
+			}
+		}
+	}
+	return out
+}
+
+// WaitNoProcsUnder waits (bounded) until no live process has its working directory under dir; it
+// returns the stragglers (after SIGKILLing them) if the bound is exceeded.
+func WaitNoProcsUnder(dir string, bound time.Duration) []int {
+	deadline := time.Now().Add(bound)
+	for {
+		p := ProcsWithCwdUnder(dir)
+		if len(p) == 0 {
+			return nil
+		}
+		if time.Now().After(deadline) {
+			for _, pid := range p {
+				syscall.Kill(pid, syscall.SIGKILL)
+			}
+			time.Sleep(100 * time.Millisecond)
+			return p
+		}
+		time.Sleep(20 * time.Millisecond)
+	}
+}
